@@ -15,6 +15,7 @@ mod c13;
 mod c14;
 mod c16;
 mod c19;
+mod pop;
 mod c20;
 mod prio3;
 mod rec;
@@ -44,6 +45,8 @@ fn main() {
     let mut out = util::Out::new();
     match prop {
         "C01" | "C02" | "C17" | "C18" => prio3::run(&mut out, thorough, seed, prop),
+        "C03" => pop::run_c03(&mut out, thorough, seed),
+        "C04" => pop::run_c04(&mut out, thorough, seed),
         "C05" => c05::run(&mut out, thorough, seed),
         "C06" => c06::run(&mut out, thorough, seed),
         "C09" => c09::run(&mut out, thorough, seed),
